@@ -54,7 +54,7 @@ pub fn parse_mrecs(s: &str) -> Vec<MRec> {
         .collect()
 }
 
-fn header_of(refs: &Refs) -> sam::Header {
+pub fn header_of(refs: &Refs) -> sam::Header {
     let mut b = sam::Header::builder();
     for (n, s) in refs {
         b = b.add_reference_sequence(
@@ -67,7 +67,12 @@ fn header_of(refs: &Refs) -> sam::Header {
     b.build()
 }
 
-fn record_of(m: &MRec) -> RecordBuf {
+/// the bytes of a name of the case text: `^@` stands for a NUL byte
+pub fn name_bytes(name: &str) -> Vec<u8> {
+    name.replace("^@", "\0").into_bytes()
+}
+
+pub fn record_of(m: &MRec) -> RecordBuf {
     let mut b = RecordBuf::builder()
         .set_flags(Flags::from(m.flag))
         .set_cigar(parse_cigar(&m.cigar).into_iter().collect::<Cigar>())
@@ -75,7 +80,7 @@ fn record_of(m: &MRec) -> RecordBuf {
         .set_sequence(Sequence::from(m.seq.clone()))
         .set_quality_scores(QualityScores::from(vec![30u8; m.seq.len()]));
     if m.name != "*" {
-        b = b.set_name(m.name.as_bytes().to_vec());
+        b = b.set_name(name_bytes(&m.name));
     }
     if m.rid >= 0 {
         b = b.set_reference_sequence_id(m.rid as usize);
@@ -256,6 +261,13 @@ pub fn push_mates(rng: &mut Rng, w: &mut CaseWriter) {
         })
         .collect();
     let n = rng.range(1, 9) as usize;
+    let rs = gen_recs(rng, &refs, n);
+    w.push("mates", vec![rng.below(2).to_string(), fmt_refs(&refs), fmt_mrecs(&rs)]);
+}
+
+/// n records over `refs` as the `mates` kind makes them (also used, slice by slice, by the `file` kind)
+pub fn gen_recs(rng: &mut Rng, refs: &Refs, n: usize) -> Vec<MRec> {
+    let nrefs = refs.len();
     let pool: &[&str] = match rng.below(4) {
         0 => &["a"],
         1 => &["a", "b", "*"],
@@ -367,5 +379,5 @@ pub fn push_mates(rng: &mut Rng, w: &mut CaseWriter) {
         let i = rng.below(n as u64) as usize;
         rs[i].mpos = (1usize << 31) + rng.below(3) as usize - 1;
     }
-    w.push("mates", vec![rng.below(2).to_string(), fmt_refs(&refs), fmt_mrecs(&rs)]);
+    rs
 }
